@@ -15,7 +15,7 @@ import (
 	bs "github.com/danthegoodman1/bloomsearch"
 )
 
-const runnerQ = "Model.Stats Model.Cursor Cases.RunnerQ"
+const runnerQ = "Model.Stats Model.Cursor Model.HandlePool Model.Slots Model.QueryLTS Cases.RunnerQ"
 
 // idErr is a recorded failure the harness can recognise in Err().
 type idErr struct{ id int64 }
